@@ -13,7 +13,7 @@ def drive (body impl : String) : Verdict :=
   let bad : List String :=
     (if abn then [s!"[hang-or-abort] {impl}"] else []) ++
     (if !abn ∧ get "got" != "3" then [s!"[waiter-not-woken] the descriptor became readable (3 bytes) but the hooked recv returned {get "got"} (another coroutine busy for {busy} ms, keep-alive {keep} ms, core workers {mn})"] else []) ++
-    (if !abn ∧ get "got" == "3" ∧ get "late" != "0" then [s!"[woken-late] the coroutine waiting for the descriptor was resumed more than 700 ms after it became readable (another coroutine busy for {busy} ms, keep-alive {keep} ms, core workers {mn})"] else [])
+    (if !abn ∧ get "got" == "3" ∧ get "late" != "0" then [s!"[woken-late] the coroutine waiting for the descriptor was resumed more than 1200 ms after it became readable (another coroutine busy for {busy} ms, keep-alive {keep} ms, core workers {mn})"] else [])
   { modelOut := "got=3 late=0", spec := [("C20", bad.isEmpty, joinWith " ; " bad)],
     labels := [if busy > 0 then "busy-neighbour" else "idle-loop", if keep > 0 then "keep-alive" else "no-keep-alive", if mn > 0 then "core-workers" else "no-core-workers"] }
 end Oc.Driver.RtWake
